@@ -247,7 +247,8 @@ func (c *c04) amountLattice() {
 func (c *c04) stringsWorkload(thorough bool) {
 	run := c.run
 	denoms := []string{"abc", "uinit", "ibc/27394FB092D2ECCD56123C74F36E4C1F926001CEADA9CA97EA622B25F41E5EB2", "move/" + strings.Repeat("ab", 30), "a" + strings.Repeat("x", 127), "evm/0xAbC.d_e-f:g"}
-	l1Recipients := []string{sim.NewAccount("r20").String(), sdk.AccAddress(c.rng.Bytes(32)).String(), sdk.AccAddress(c.rng.Bytes(1)).String()}
+	l1Recipients := []string{sim.NewAccount("r20").String(), sdk.AccAddress(c.rng.Bytes(32)).String(), sdk.AccAddress(c.rng.Bytes(1)).String(),
+		strings.ToUpper(sim.NewAccount("r20upper").String())} // bech32 may be written all-uppercase; L2 records the string verbatim
 	l2BadRecipients := []string{"0x" + strings.Repeat("ab", 20), "INIT1UPPERCASE", "é中🙂", strings.Repeat("y", 1000), "a\tb", "cosmos1", " "}
 	tc := newTwoChain(3*time.Second, L2EnvOpts{})
 	who := tc.L1.Users[2]
